@@ -32,14 +32,18 @@ META = {
                  "hand model of the PrimalSearch exit logic and PrimalEval (scalar rows) tied BITWISE to the static C functions; "
                  "property oracle over generated scenes",
     "text": "Proved over the reals for every positive definite M, every J, a0, aref and every convex differentiable constraint "
-            "cost s with force f = -grad s (hypothesis; C12 proves it for the modelled rows and cone blocks): at EVERY point a "
+            "cost s with force f = -grad s (a hypothesis in general; DISCHARGED here for every problem made of scalar rows - equality, friction "
+            "loss, limits, frictionless and pyramidal contacts - with the row laws of the C11/C12 model and the parameter relations "
+            "D >= 0, D R = 1, frictionloss >= 0; for elliptic cone blocks C12 proves it under the impedance relation): at EVERY point a "
             "and against EVERY x, cost(a) - cost(x) <= 1/2 g' M^-1 g with g the gradient (also against the infimum; witness "
             "form with M w = g for positive semidefinite M), the M-distance of a to the (unique) stationary point is "
             "<= sqrt(g' M^-1 g), a stationary point is the global minimiser; for block-separable costs (islands) the "
             "minimisers are exactly the tuples of block minimisers and block-diagonal M, J give such a cost, with a0 minimising "
             "a block without constraint rows; for the modelled PrimalSearch, for every evaluation function, every exit either "
             "returns step 0, or a point whose evaluated cost difference is < 0, or is one of three exits the code does not "
-            "cost-check (LSresult 3, 7, converged bracket candidate); the modelled accept loop never increases the cost when "
+            "cost-check (LSresult 3, 7, converged bracket candidate); for scalar rows the modelled PrimalPrepare + PrimalEval return exactly the "
+            "change of the documented cost (Gauss term + row costs of the C11/C12 model) along the search line, so a cost-checked "
+            "exit strictly decreases the documented cost; the modelled accept loop never increases the cost when "
             "all accepted steps are cost-checked (PARTIAL: the three unchecked exits are only sampled); the warm start takes the "
             "cheaper of qacc_warmstart and qacc_smooth. The theorem is unbounded; WHICH solver outputs get the certificate "
             "evaluated is sampled (level: proof of the certificate, sampled application).",
@@ -58,10 +62,14 @@ THEOREMS = [
     "MjProof.C10.distance_certificate_witness",
     "MjProof.C10.stationary_is_minimiser",
     "MjProof.C10.minimiser_unique",
+    "MjProof.C10.gradIneq_scalar_rows",
+    "MjProof.C10.suboptimality_certificate_scalar_rows",
     "MjProof.C10.island_decomposition",
     "MjProof.C10.block_cost_separates",
     "MjProof.C10.unconstrained_block_minimiser",
     "MjProof.C10.primalSearch_checked",
+    "MjProof.C10.primalEval_is_cost_difference",
+    "MjProof.C10.primalSearch_checked_decreases_cost",
     "MjProof.C10.primal_monotone_partial",
     "MjProof.C10.warmstart_picks_cheaper",
 ]
